@@ -11,7 +11,8 @@ TITLE = "Particle and sink tables are loaded completely, typed and scaled correc
 RULE = (
     "case i -> rng(seed, C14, i): output with ndim 1-3, 1-8 CPUs, a particle descriptor mixing d/i/b columns "
     "(4 layouts), per-CPU particle counts incl. 0 / all 0 / hundreds, five header records of random byte "
-    "lengths, optional sortby; a sink CSV with 0 (empty file), 1 or several sinks, random column subsets, the "
+    "lengths, optional sortby, optionally only some of the descriptor's variables asked for (first dropped, last "
+    "dropped, random subset, a single one; as a list or as {name: False}); a sink CSV with 0 (empty file), 1 or several sinks, random column subsets, the "
     "code-unit dialect ('m l**2 t**-1') or the legacy bracket dialect ('[au]'), or no sink file / no particle "
     "files at all.  Stored numbers encode (cpu, row, column).  Non-trivial = >=2 CPUs with different non-zero "
     "particle counts and >=1 byte and >=1 int column, or a sink file with >=2 sinks; distinct = distinct specs."
@@ -25,7 +26,7 @@ def plan(tier):
             "required_monitors": ["part-columns", "part-count-meta", "part-sorted", "sink-columns", "sink-absent",
                                   "sink-empty-file", "part-absent"],
             "required_tags": ["zero-count-cpu", "all-zero-particles", "byte-column", "one-sink", "legacy-units",
-                              "code-units", "ndim1", "ndim2", "ndim3"]}
+                              "code-units", "ndim1", "ndim2", "ndim3", "part-variable-subset"]}
 
 
 def cases(ctx):
@@ -80,26 +81,54 @@ def run_case(case, ctx, res):
     if has_part and rng.random() < 0.5:
         names = [n for n, t in spec["part"]["descriptor"]]
         sortkey = "identity" if "identity" in names and rng.random() < 0.6 else "mass" if "mass" in names else None
+    # "for each variable ... the concatenation over the CPU files read": also when only some of the descriptor's
+    # variables are asked for (dropping the first / a random subset / all but one)
+    keep, psel = None, None
+    if has_part and (rng.random() < 0.4 if not case.get("fixed") else case["i"] % 4 == 1):
+        names = [n for n, t in spec["part"]["descriptor"]]
+        mode = str(rng.choice(["drop-first", "drop-first", "drop-random", "keep-one", "drop-last"]))
+        if mode == "drop-first":
+            keep = names[1:]
+        elif mode == "drop-last":
+            keep = names[:-1]
+        elif mode == "keep-one":
+            keep = [names[int(rng.integers(0, len(names)))]]
+        else:
+            keep = [n for n in names if rng.random() < 0.6]
+        if sortkey and sortkey not in keep:
+            keep.append(sortkey)
+        if not keep:
+            keep = [names[-1]]
+        keep = [n for n in names if n in keep]
+        if len(keep) == len(names):
+            keep = None
+        else:
+            psel = ({"part": {n: False for n in names if n not in keep}} if rng.random() < 0.5
+                    else {"part": [str(n) for n in rng.permutation(keep)]})
+            res.tag("part-variable-subset")
     model = rs.build(spec)
     res.tag(f"ndim{spec['ndim']}")
-    res.digest_src = {"spec": iom.spec_brief(spec), "part": spec["part"], "sink": spec["sink"], "sort": sortkey}
-    res.sample = {"ndim": spec["ndim"], "ncpu": spec["ncpu"], "part": spec["part"], "sink": spec["sink"], "sortby": sortkey}
+    res.digest_src = {"spec": iom.spec_brief(spec), "part": spec["part"], "sink": spec["sink"], "sort": sortkey, "select": psel}
+    res.sample = {"ndim": spec["ndim"], "ncpu": spec["ncpu"], "part": spec["part"], "sink": spec["sink"], "sortby": sortkey,
+                  "select": psel}
     path = ctx.scratch("c14-")
     try:
         rs.write(model, path)
         kw = {"sortby": {"part": sortkey}} if sortkey else {}
+        if psel:
+            kw["select"] = psel
         out, _, opened = iom.load(osy, path, spec["nout"], **kw)
         if not out.ok:
             res.violate("load-raised", f"load({kw}) {out.describe()}", part=spec["part"], sink=spec["sink"], tb=out.tb)
             return
         ds = out.value
-        _check_part(res, osy, spec, ds, sortkey)
+        _check_part(res, osy, spec, ds, sortkey, keep)
         _check_sink(res, osy, spec, ds)
     finally:
         shutil.rmtree(path, ignore_errors=True)
 
 
-def _check_part(res, osy, spec, ds, sortkey):
+def _check_part(res, osy, spec, ds, sortkey, keep=None):
     p = spec["part"]
     if p is None:
         res.count("part-absent")
@@ -125,11 +154,12 @@ def _check_part(res, osy, spec, ds, sortkey):
     res.count("part-count-meta")
     if int(ds.meta.get("nparticles", -1)) != total:
         res.violate("meta-nparticles", f"meta['nparticles'] = {ds.meta.get('nparticles')}, files hold {total}", part=p)
-    names = [n for n, t in desc]
+    names = [n for n, t in desc if keep is None or n in keep]
     vectors, scalars = iom.vector_families(names, spec["ndim"])
     exp_keys = set(vectors) | set(scalars)
     if set(part.keys()) != exp_keys:
-        res.violate("part-keys-differ", f"part keys {sorted(part.keys())} != expected {sorted(exp_keys)}", part=p)
+        res.violate("part-keys-differ", f"part keys {sorted(part.keys())} != expected {sorted(exp_keys)} (asked for {keep or 'all'})",
+                    part=p)
         return
     where = {}
     for vname, fam in vectors.items():
@@ -146,8 +176,8 @@ def _check_part(res, osy, spec, ds, sortkey):
         arr = getattr(part[where[name][0]], where[name][1]) if name in where else part[name]
         got[name] = arr
         if np.asarray(arr.values).shape != (total,):
-            res.violate("part-length", f"column {name!r} has shape {np.asarray(arr.values).shape}, files hold {total} particles",
-                        part=p)
+            res.violate("part-length", f"column {name!r} has shape {np.asarray(arr.values).shape}, files hold {total} particles"
+                        + (f" (variables asked for: {keep})" if keep else ""), part=p)
             return
     if sortkey:
         res.count("part-sorted")
